@@ -53,7 +53,10 @@ Section Extend.
       (fun _ s' => p = false /\ vabs s' v (l ++ zseq (next_elem s) n) /\ next_elem s' = next_elem s + Z.of_nat n /\
                    (forall e, e < next_elem s -> ledger s' e = ledger s e))
       (fun s' => exists k, (k <= n)%nat /\ vabs s' v (l ++ zseq (next_elem s) k) /\
-                           (forall e, e < next_elem s -> ledger s' e = ledger s e)).
+                           (forall e, e < next_elem s -> ledger s' e = ledger s e) /\
+                           next_elem s <= next_elem s' /\
+                           (forall e, next_elem s <= e < next_elem s' ->
+                                      In e (zseq (next_elem s) k) \/ ledger s' e = Dropped)).
   Proof.
     induction fuel as [|fuel IH]; intros s v l sc Hab Hfuel; [lia|].
     destruct (vabs_owned cfg s v l Hab) as (Hnd & Hlive & Hold).
@@ -66,7 +69,8 @@ Section Extend.
     - destruct (Z.eqb_spec x A_P) as [EP|NP].
       { (* the iterator panics *)
         unfold bind, emit, panic. simpl. exists O. split; [lia|]. simpl. rewrite app_nil_r.
-        split; [eapply vabs_ext; [exact Hab|reflexivity|reflexivity|auto|simpl; lia]|auto]. }
+        split; [eapply vabs_ext; [exact Hab|reflexivity|reflexivity|auto|simpl; lia]|].
+        split; [auto|]. split; [lia|]. intros y Hy. lia. }
       destruct (Z.eqb_spec x A_S) as [ES|NS].
       2:{ (* None *)
         unfold bind, emit, ret. simpl. rewrite app_nil_r.
@@ -86,8 +90,11 @@ Section Extend.
       eapply post_bind.
       { eapply post_weaken; [exact Hpush|intros u s3 H; exact H|].
         intros s3 (Hab3 & Hd & Hoc). exists O. split; [lia|]. simpl. rewrite app_nil_r. split; [exact Hab3|].
-        intros y Hy. destruct Hoc as [_ Hl3]. rewrite Hl3 by (intros [<-|[]]; unfold e in Hy; lia).
-        rewrite Hl2. unfold upd. destruct (Z.eqb_spec y (next_elem s)); [lia|reflexivity]. }
+        destruct Hoc as [Hn3 Hl3]. split; [|split].
+        - intros y Hy. rewrite Hl3 by (intros [<-|[]]; unfold e in Hy; lia).
+          rewrite Hl2. unfold upd. destruct (Z.eqb_spec y (next_elem s)); [lia|reflexivity].
+        - lia.
+        - intros y Hy. right. assert (y = e) by (unfold e; lia). subst y. exact Hd. }
       intros u s3 (Hab3 & [Hn3 Hl3] & _).
       specialize (IH s3 v (l ++ [e]) sc' Hab3 ltac:(simpl in Hfuel; lia)). rewrite Ey in IH.
       assert (Hns3 : next_elem s3 = next_elem s + 1) by (rewrite Hn3; exact Hn2).
@@ -97,9 +104,12 @@ Section Extend.
       + intros sc'' s4 (Hp & Hab4 & Hn4 & Hl4). split; [exact Hp|].
         rewrite <- app_assoc in Hab4. rewrite Hns3 in Hab4. split; [exact Hab4|]. split; [lia|].
         intros y Hy. rewrite Hl4 by lia. apply Hold3. exact Hy.
-      + intros s4 (k & Hk & Hab4 & Hl4). exists (S k). split; [lia|].
+      + intros s4 (k & Hk & Hab4 & Hl4 & Hn4 & Hnew4). exists (S k). split; [lia|].
         rewrite <- app_assoc in Hab4. rewrite Hns3 in Hab4. split; [exact Hab4|].
-        intros y Hy. rewrite Hl4 by lia. apply Hold3. exact Hy.
+        split; [intros y Hy; rewrite Hl4 by lia; apply Hold3; exact Hy|].
+        split; [lia|]. intros y Hy. cbn [zseq].
+        destruct (Z.eq_dec y (next_elem s)) as [->|Hne]; [left; left; reflexivity|].
+        destruct (Hnew4 y ltac:(lia)) as [Hin|Hdr]; [left; right; rewrite Hns3 in Hin; exact Hin|right; exact Hdr].
   Qed.
 
   Theorem extend_abs s v l sc :
@@ -109,6 +119,9 @@ Section Extend.
       (fun _ s' => p = false /\ vabs s' v (l ++ zseq (next_elem s) n) /\ next_elem s' = next_elem s + Z.of_nat n /\
                    (forall e, e < next_elem s -> ledger s' e = ledger s e))
       (fun s' => exists k, (k <= n)%nat /\ vabs s' v (l ++ zseq (next_elem s) k) /\
-                           (forall e, e < next_elem s -> ledger s' e = ledger s e)).
+                           (forall e, e < next_elem s -> ledger s' e = ledger s e) /\
+                           next_elem s <= next_elem s' /\
+                           (forall e, next_elem s <= e < next_elem s' ->
+                                      In e (zseq (next_elem s) k) \/ ledger s' e = Dropped)).
   Proof. intros Hab. unfold extend. apply (extend_loop_abs (S (List.length sc)) s v l sc Hab). lia. Qed.
 End Extend.
